@@ -115,6 +115,9 @@ theorem parse_noPanic (src : List Nat) (cap : Nat) (server : Bool) (maxSize : Na
       · simp only [checkedAdd, hfl, if_true]
         by_cases hlt : src.length < m.idx + m.length
         · simp only [hlt, if_true]
+          by_cases hbig : maxSize < m.length
+          · simp [hbig]
+          simp only [hbig, if_false]
           by_cases hrc : m.idx + min m.length maxSize ≤ usizeMax
           · simp only [hrc, if_true]
             by_cases hc : cap < m.idx + min m.length maxSize
@@ -168,6 +171,9 @@ theorem parse_progress (src : List Nat) (cap : Nat) (server : Bool) (maxSize : N
       · simp only [checkedAdd, hfl, if_true] at h
         by_cases hlt : src.length < m.idx + m.length
         · simp only [hlt, if_true] at h
+          by_cases hbig : maxSize < m.length
+          · simp [hbig] at h
+          simp only [hbig, if_false] at h
           by_cases hrc : m.idx + min m.length maxSize ≤ usizeMax
           · simp only [hrc, if_true] at h
             by_cases hc : cap < m.idx + min m.length maxSize
